@@ -121,7 +121,18 @@ def cls(ch):
     return None
 
 
+_budget = {'calls': 0, 'limit': None}
+
+
+class _BudgetExceeded(Exception):
+    pass
+
+
 def _ok(m, w, opts):
+    if _budget['limit'] is not None:
+        _budget['calls'] += 1
+        if _budget['calls'] > _budget['limit']:
+            raise _BudgetExceeded()
     try:
         return m.is_valid(w, **opts) is True
     except TypeError:
@@ -256,6 +267,9 @@ def date_variants(name, slices, **opts):
 _edge_cache = {}
 
 
+_EDGE_LIMIT = {'mac': 8000}
+
+
 def edge_pool(name, **opts):
     """Valid numbers with every character of the class at the first two and last two positions, for one base number per
     length occurring in the pool (leading zeros, rare first letters, every check character)."""
@@ -263,6 +277,19 @@ def edge_pool(name, **opts):
     if key in _edge_cache:
         return _edge_cache[key]
     out, seen, lengths = [], set(), {}
+    # deterministic cap on validator calls: only bitcoin (1.2M calls for 6 numbers) and mac (registry lookup per call) reach it
+    _budget['calls'], _budget['limit'] = 0, _EDGE_LIMIT.get(name, 300000)
+    try:
+        _edge_fill(name, opts, out, seen, lengths)
+    except _BudgetExceeded:
+        stats['edge_pool_budget_exceeded'] += 1
+    finally:
+        _budget['limit'] = None
+    _edge_cache[key] = out
+    return out
+
+
+def _edge_fill(name, opts, out, seen, lengths):
     for v in pool(name, **opts):
         # one base number per shape: length and which positions hold digits / upper / lower case letters
         lengths.setdefault((len(v), ''.join('d' if c.isdigit() else 'u' if c.isupper() else 'l' if c.islower() else 'o' for c in v)), v)
@@ -306,8 +333,6 @@ def edge_pool(name, **opts):
                         if o[0] == 'ok' and isinstance(o[1], str) and o[1] not in seen:
                             seen.add(o[1])
                             out.append(o[1])
-    _edge_cache[key] = out
-    return out
 
 
 _boundary_cache = {}
@@ -319,8 +344,20 @@ def boundary_pool(name, **opts):
     key = (name, tuple(sorted(opts.items())), core.get_today())
     if key in _boundary_cache:
         return _boundary_cache[key]
-    m = core.number_modules()[name]
     out, seen = [], set()
+    _budget['calls'], _budget['limit'] = 0, _EDGE_LIMIT.get(name, 300000)
+    try:
+        _boundary_fill(name, opts, out, seen)
+    except _BudgetExceeded:
+        stats['boundary_pool_budget_exceeded'] += 1
+    finally:
+        _budget['limit'] = None
+    _boundary_cache[key] = out
+    return out
+
+
+def _boundary_fill(name, opts, out, seen):
+    m = core.number_modules()[name]
     bases = {}
     for v in pool(name, **opts):
         bases.setdefault(len(v), v)
@@ -340,8 +377,6 @@ def boundary_pool(name, **opts):
                             if o[0] == 'ok' and isinstance(o[1], str):
                                 seen.add(w)
                                 out.append(o[1])
-    _boundary_cache[key] = out
-    return out
 
 
 def valid_numbers(name, raw_fraction=4, **opts):
